@@ -203,7 +203,7 @@ func IsDomainName(s string) (labels int, ok bool) {
 	for i := 0; i < len(s); i++ {
 		switch s[i] {
 		case '\\':
-			escape = !escape
+			escape = true
 			if off+1 > lenmsg {
 				return labels, false
 			}
